@@ -9,7 +9,7 @@ thermodynamic backend (therm.getEq, mobility_from_composition_set) replaced by u
 point: result = averaging rule applied to the oracle's matrices; evaluating the same point again (second call, and
 second row of one call) gives the same answer, cache enabled or not.
 """
-import sys, itertools, importlib, functools, operator
+import itertools, importlib, functools, operator
 import numpy as np
 from vk.run import Harness
 from kawin.thermo import GeneralThermodynamics
@@ -64,13 +64,25 @@ def cp(a):
 
 # ------------------------------------------------------------------------------------------------ clause 1
 
-def bounds(ctx, p=2, e=1, fork=True):
-    """min M <= W_low <= HS_low <= HS_up <= W_up <= max M for defined mobilities and fractions on the simplex"""
+def bounds(ctx, p=2, e=1, order=None):
+    """min M <= W_low <= HS_low <= HS_up <= W_up <= max M for defined mobilities and fractions on the simplex.
+    order=None: the orderings of the phase mobilities are explored as paths; order=(i0, i1, ..): only the case
+    M[i0] <= M[i1] <= ... for element 0 (a list of such tuples: one per element) -- the parameter sets enumerate all
+    orderings, so that they run in parallel"""
+    orders = [] if order is None else ([list(order)] if not isinstance(order[0], (list, tuple)) else [list(o) for o in order])
     M = defined_mob(ctx, p, e)
+    if ctx.mode == "concrete" and ctx.rng is not None:
+        # random validation sample: rearrange each column so that it has the ordering of this parameter set
+        for j, o in enumerate(orders):
+            col = sorted(float(M[i, j]) for i in range(p))
+            for rank, i in enumerate(o):
+                M[i, j] = col[rank]; ctx.values["M[%d,%d]" % (i, j)] = col[rank]
     f = simplex(ctx, p)
-    if fork:
-        for j in range(e):
-            order_fork(ctx, M, j)
+    for j, o in enumerate(orders):
+        for a, b in zip(o[:-1], o[1:]):
+            ctx.assume(M[a, j] <= M[b, j])
+    for j in range(len(orders), e):
+        order_fork(ctx, M, j)
     M0 = cp(M); f0 = cp(f)
     r = {k: fn(M, f) for k, fn in RULES.items()}
     for k in r:
@@ -422,18 +434,22 @@ _E2E_T = [_e(r, "predefined", a, st, elements=els, cache=c, pts=x)
           for els, x in ((("NI", "AL"), _SAME2), (("CR", "AL", "NI"), _T3x3))][::2] + \
          [_e(r, "exclude", ex, st, pts=_SAME2) for r in ("wiener upper", "lab") for ex in (["GAMMA"], ["ALPHA", "GAMMA"])
           for st in (["GAMMA"], ["BETA", "ALPHA"], ["BETA", "GAMMA", "ALPHA"])] + \
-         [_e(r, "majority", None, st, pts=_DIFF2) for r in ("wiener upper",) for st in (["GAMMA"], ["BETA", "ALPHA"], ["BETA", "GAMMA", "ALPHA"])] + \
+         [_e(r, "majority", None, st, pts=x) for r in ("wiener upper",) for st, x in ((["GAMMA"], _DIFF2), (["BETA", "ALPHA"], _DIFF2), (["BETA", "GAMMA", "ALPHA"], ((0.3,),)))] + \
          [_e(r, m, a, st, undef=False) for r in ("wiener lower", "hashin upper", "hashin lower") for m, a in (("predefined", "BETA"), ("majority", None))
           for st in (["BETA"], ["ALPHA", "BETA"])]
 
 HARNESSES = [
-    Harness("C17.bounds", bounds, functions=_F1, assumptions=_A1, bounds={"phases": "2 (3 thorough)", "elements": "1-2"},
-            opts={"fold_ite": True, "ob_timeout": 40.0}, budget={"quick": 150.0, "thorough": 1500.0},
-            params={"quick": [{"p": 2, "e": 1}, {"p": 2, "e": 2}], "thorough": [{"p": 3, "e": 1, "_opts": {"ob_timeout": 200.0}}]}),
+    Harness("C17.bounds", bounds, functions=_F1, assumptions=_A1,
+            bounds={"phases": "2-3 (4 phases: the two Hashin-Shtrikman orderings stay undecided at 300 s per obligation, so 4 is NOT claimed)",
+                    "elements": "1-2", "orderings": "3 phases: one parameter set per ordering of the phase mobilities, all 6 enumerated"},
+            opts={"fold_ite": True, "ob_timeout": 60.0}, budget={"quick": 400.0, "thorough": 1500.0},
+            params={"quick": [{"p": 2, "e": 1}, {"p": 2, "e": 2}] + [{"p": 3, "e": 1, "order": list(q), "_opts": {"ob_timeout": 150.0}} for q in itertools.permutations(range(3))],
+                    "thorough": [{"p": 3, "e": 2, "order": [list(q), list(q2)], "_opts": {"ob_timeout": 300.0}}
+                                 for q in itertools.permutations(range(3)) for q2 in itertools.permutations(range(3))]}),
     Harness("C17.perm", perm, functions=_F1, assumptions=_A1, bounds={"phases": "2-3", "elements": "1-2"},
             opts={"fold_ite": True, "ob_timeout": 30.0}, budget={"quick": 120.0, "thorough": 900.0},
             params={"quick": [{"p": 2, "e": 2, "perm": [1, 0]}, {"p": 3, "e": 1, "perm": [1, 2, 0]}, {"p": 3, "e": 1, "perm": [0, 2, 1]}],
-                    "thorough": [{"p": 3, "e": 2, "perm": q} for q in _perms3] + [{"p": 4, "e": 1, "perm": [3, 0, 1, 2]}, {"p": 4, "e": 1, "perm": [1, 0, 3, 2]}]}),
+                    "thorough": [{"p": 3, "e": 2, "perm": q} for q in _perms3[1::2]] + [{"p": 3, "e": 1, "perm": q} for q in _perms3[0::2]] + [{"p": 4, "e": 1, "perm": [3, 0, 1, 2]}, {"p": 4, "e": 1, "perm": [1, 0, 3, 2]}]}),
     Harness("C17.single", single, functions=_F1, assumptions=_A1, bounds={"phases": 1, "elements": "2 (3 thorough)"},
             opts={"fold_ite": True}, params={"quick": [{"e": 2}], "thorough": [{"e": 3}]}),
     Harness("C17.lab", lab, functions=_F1,
@@ -442,7 +458,7 @@ HARNESSES = [
                                "undef=True: every entry is either > 0 or the sentinel -1 (symbolic bit)"],
             bounds={"phases": "2 (3-4 thorough)", "elements": "1-2"}, opts={"ob_timeout": 30.0},
             params={"quick": [{"p": 2, "e": 1, "n": "sym"}, {"p": 2, "e": 2, "n": 2}, {"p": 3, "e": 1, "n": 1.5, "undef": True}, {"p": 2, "e": 1, "n": "sym", "undef": True}],
-                    "thorough": [{"p": 3, "e": 2, "n": "sym", "undef": True}, {"p": 4, "e": 1, "n": "sym"}, {"p": 4, "e": 1, "n": 2, "undef": True}, {"p": 3, "e": 2, "n": 1.5}]}),
+                    "thorough": [{"p": 3, "e": 2, "n": "sym", "undef": True}, {"p": 4, "e": 1, "n": "sym"}, {"p": 4, "e": 1, "n": 2}, {"p": 3, "e": 1, "n": 2, "undef": True}, {"p": 3, "e": 2, "n": 1.5}]}),
     Harness("C17.post", post, functions=_F2, assumptions=_A2, bounds={"database phases": "3 (4 thorough)", "stable phases": "1-3", "elements": 2},
             stubs=["therm: object.__new__(GeneralThermodynamics) with phases/elements only"],
             params={"quick": [{"mode": "predefined", "arg": "BETA", "db": 3, "stable": st} for st in (["BETA"], ["BETA", "GAMMA"], ["GAMMA", "BETA"], ["ALPHA", "GAMMA"], ["GAMMA"], ["ALPHA", "BETA", "GAMMA"])] +
